@@ -6,6 +6,7 @@ import contracts.guesser_expand as ge
 import contracts.guesser_session as gs
 import contracts.guesser_prince as gp
 import contracts.guesser_lemmas as gl
+import contracts.guesser_loader as gld
 
 M = gc.MOD + ':PcfgGrammar.'
 Q = gc.PQ + ':'
@@ -16,13 +17,21 @@ PROP = Prop(
                M + 'create_guesses', M + '_recursive_guesses', Q + 'PcfgQueue.next', Q + 'PcfgQueue.__init__',
                gp.PM + ':prince_evaluation',
                # 'each (type, value, capitalisation) once', most probable first: the adoption rule and the queue step (C01/C02's functions)
-               M + '_find_prob', M + '_are_you_my_child', M + 'find_children', M + 'initalize_base_structures', Q + 'PcfgQueue.insert_queue'],
-    lemmas=lambda: gl.queue_step.lemmas() + gs.flat_ext.lemmas() + ge.catvals_split.lemmas() + gl.all_c01_lemmas() + gl.all_c02_lemmas(),
+               M + '_find_prob', M + '_are_you_my_child', M + 'find_children', M + 'initalize_base_structures', Q + 'PcfgQueue.insert_queue',
+               # '(type, value, capitalisation)': the mask variable C<n> inserted after every alpha variable A<n> carries the same n
+               (gld.GIO + ':_load_base_structures', gs.install)],
+    lemmas=lambda: gld.firstm_stable.lemmas() + gl.queue_step.lemmas() + gs.flat_ext.lemmas() + ge.catvals_split.lemmas() + gl.all_c01_lemmas() + gl.all_c02_lemmas(),
     setup=gp.install,
     effects=effects.state_frame_for('C17', ['lib_guesser/pcfg_grammar.py', 'lib_guesser/priority_queue.py', 'lib_guesser/grammar_io.py', 'lib_princeling/wordlist_generation.py']),
     level='other',
     replay=script_replay('replay/cli.py', default_fn='C17'),
-    bounded=[Bounded('C17.bounded.cli', 'replay/cli.py', args=['--fn', 'C17'],
+    bounded=[Bounded('C17.bounded.run', 'replay/guesser.py', args=['--fn', 'RUN'],
+                     bound='60 random rulesets run to exhaustion',
+                     clause='cross-check: every pre-terminal is handed out exactly once, the last ones included, in non-increasing order'),
+             Bounded('C17.bounded.loader_base', 'replay/loader.py', args=['--fn', '_load_base_structures'],
+                     bound='grammar.txt files of 1-6 lines incl. alpha variables of two-digit length',
+                     clause='cross-check: C<n> follows every A<n> with the same n'),
+             Bounded('C17.bounded.cli', 'replay/cli.py', args=['--fn', 'C17'],
                      bound="Rules/Default 'Prince' grammar; sizes {1, 9, 5001, 5002, 5003} (5001-5003 fall inside a group of equally probable words); "
                            'thorough adds 5 sizes and --all_lower; one run with -o compared with stdout',
                      clause='the real prince_ling.py writes exactly the first N words of a longer run; the file equals the stdout list')],
